@@ -742,13 +742,14 @@ fn merkle_tree_is_bounded_by_the_size_of_the_block() {
     use crate::core::consensus::merkle::MerkleTree;
     for replacements in [1u32, 2, 64, 200_000] {
         let mut tx = Transaction::default();
+        tx.transaction_type = TransactionType::SPV;   // (the field counts for placeholders only; any peer can send one in a served block)
         tx.txs_replacements = replacements;
         tx.hash_for_signature = Some([1; 32]);
         let wire = tx.serialize_for_net().len();
         let decoded = Transaction::deserialize_from_net(&tx.serialize_for_net()).unwrap();
         let tree = MerkleTree::generate(&vec![decoded]).unwrap();
         if tree.len() > wire {
-            witness(format!("a {}-byte transaction with txs_replacements={} makes MerkleTree::generate build {} leaves ({} with u32::MAX): a block of a few hundred bytes exhausts the node's memory in Block::generate, before any validation",
+            witness(format!("a {}-byte placeholder transaction with txs_replacements={} makes MerkleTree::generate build {} leaves ({} with u32::MAX): a block of a few hundred bytes exhausts the node's memory in Block::generate, before any validation",
                 wire, replacements, tree.len(), u32::MAX));
         }
     }
@@ -2470,4 +2471,152 @@ async fn capped_treasury_payout_is_what_the_outputs_receive() {
     vbytes.extend(&rebroadcast.serialize_for_signature());
     let hash_matches_adjusted = crate::core::util::crypto::hash(&vbytes) == cv.rebroadcast_hash;
     if !((rebroadcast.to[0].amount + cv.total_fees_atr) == (5000 + cv.total_payout_atr)) { witness(format!("the 5000-nolan output of block 3 reappears in block 14 with {} nolan (uncapped payout multiplier {} applied, cap is 5% of treasury {} = {}), while the block debits the treasury by total_payout_atr = {} and books total_fees_atr = {}: the owner gains {} nolan nobody pays for (rebroadcast_hash still commits to the unadjusted transaction: {})", rebroadcast.to[0].amount, multiplier, block14.treasury, cap, cv.total_payout_atr, cv.total_fees_atr, rebroadcast.to[0].amount + cv.total_fees_atr - 5000 - cv.total_payout_atr, !hash_matches_adjusted)); }
+}
+
+/// C18: a replacement count is a placeholder's business — a signed Normal transaction with txs_replacements = 3 is refused
+/// (it would give the full block's tree three leaves where every lite block, which replaces the transaction by a placeholder
+/// for one transaction, has one), and MerkleTree::generate counts one leaf for it whatever the field says
+#[tokio::test]
+#[serial_test::serial]
+async fn replacement_count_on_a_normal_transaction_is_refused() {
+    use crate::core::consensus::merkle::MerkleTree;
+    let mut t = TestManager::default();
+    t.initialize(100, 200_000_000_000_000).await;
+    let (pk, sk) = { let w = t.wallet_lock.read().await; (w.public_key, w.private_key) };
+    let genesis_period = t.config_lock.read().await.get_consensus_config().unwrap().genesis_period;
+    let tip_id = t.blockchain_lock.read().await.get_latest_block_id();
+    for count in [0u32, 2, 3, 64] {
+        let mut tx = { let mut w = t.wallet_lock.write().await; Transaction::create(&mut w, pk, 1_000, 0, false, None, tip_id, genesis_period).unwrap() };
+        tx.txs_replacements = count;
+        tx.sign(&sk);
+        tx.generate(&pk, 0, 0);
+        let bc = t.blockchain_lock.read().await;
+        let mut honest = tx.clone(); honest.txs_replacements = 1; honest.sign(&sk); honest.generate(&pk, 0, 0);
+        assert!(honest.validate(&bc.utxoset, &bc, true), "harness: the same payment with a count of 1 validates");
+        if tx.validate(&bc.utxoset, &bc, true) {
+            witness(format!("a Normal transaction signed by its sender with txs_replacements = {} is accepted by Transaction::validate; the lite block of a block carrying it replaces it by a placeholder with a count of 1", count));
+        }
+        let leaves = MerkleTree::generate(&vec![tx.clone()]).unwrap().len();
+        if leaves != 1 { witness(format!("MerkleTree::generate builds a tree of {} nodes for one Normal transaction whose txs_replacements field says {}", leaves, count)); }
+    }
+}
+
+#[allow(dead_code)]
+fn replay_peer_blocks_with_atr_payload(
+    attacker_public_key: SaitoPublicKey,
+    attacker_private_key: SaitoPrivateKey,
+    payload: Vec<u8>,
+) -> (Vec<u8>, Vec<u8>) {
+    use crate::core::consensus::golden_ticket::GoldenTicket;
+
+    let mut atr = Transaction::default();
+    atr.transaction_type = TransactionType::ATR;
+    let mut input = Slip::default();
+    input.public_key = attacker_public_key;
+    input.amount = 1000;
+    input.block_id = 1;
+    atr.from.push(input);
+    let mut output = Slip::default();
+    output.public_key = attacker_public_key;
+    output.amount = 0;
+    output.slip_type = SlipType::ATR;
+    atr.to.push(output);
+    atr.data = payload;
+
+    let mut p = Block::new();
+    p.id = 5;
+    p.timestamp = 1_700_000_000_000;
+    p.previous_block_hash = [9; 32];
+    p.creator = attacker_public_key;
+    p.total_fees = 1000;
+    p.transactions = vec![atr];
+    p.generate().unwrap();
+    p.sign(&attacker_private_key);
+    p.generate().unwrap();
+    let p_bytes = p.serialize_for_net(BlockType::Full);
+
+    let mut gt_tx = Transaction::default();
+    gt_tx.transaction_type = TransactionType::GoldenTicket;
+    let mut gt_input = Slip::default();
+    gt_input.public_key = attacker_public_key;
+    gt_tx.from.push(gt_input);
+    gt_tx.data = GoldenTicket::create(p.hash, [5; 32], attacker_public_key).serialize_for_net();
+    gt_tx.sign(&attacker_private_key);
+
+    let mut c = Block::new();
+    c.id = 6;
+    c.timestamp = p.timestamp + 1000;
+    c.previous_block_hash = p.hash;
+    c.creator = attacker_public_key;
+    c.transactions = vec![gt_tx];
+    c.generate().unwrap();
+    c.sign(&attacker_private_key);
+    c.generate().unwrap();
+    let c_bytes = c.serialize_for_net(BlockType::Full);
+
+    (p_bytes, c_bytes)
+}
+
+/// C10/C11: a stored block whose rebroadcast transaction carries a payload that is no transaction (a syncing node stores what its
+/// peers send) does not stop the node when the next block's routing payout is drawn — scenario of an independent audit
+#[tokio::test]
+#[serial_test::serial]
+async fn rebroadcast_payload_that_is_no_transaction_does_not_stop_the_node() {
+    #[allow(unused_imports)] use crate::core::util::crypto::generate_keys;
+    #[allow(unused_imports)] use crate::core::util::test::test_manager::test::TestManager;
+    #[allow(unused_imports)] use crate::core::consensus::slip::Slip;
+    #[allow(unused_imports)] use crate::core::consensus::transaction::Transaction;
+    #[allow(unused_imports)] use crate::core::consensus::block::Block;
+    use crate::core::consensus::blockchain::AddBlockResult;
+    use futures::FutureExt;
+    use std::panic::AssertUnwindSafe;
+
+    let (attacker_public_key, attacker_private_key) = generate_keys();
+
+    // control: the rebroadcast payload is the network encoding of a transaction (what an honest
+    // block producer puts there). the node takes P and handles C without panicking.
+    {
+        let mut t = TestManager::default();
+        let mut original = Transaction::default();
+        let mut slip = Slip::default();
+        slip.public_key = attacker_public_key;
+        original.from.push(slip.clone());
+        original.to.push(slip);
+        original.sign(&attacker_private_key);
+        let (p_bytes, c_bytes) = replay_peer_blocks_with_atr_payload(
+            attacker_public_key,
+            attacker_private_key,
+            original.serialize_for_net(),
+        );
+        let p = Block::deserialize_from_net(&p_bytes).expect("P decodes");
+        let result = t.add_block(p).await;
+        assert!(
+            matches!(result, AddBlockResult::BlockAddedSuccessfully(_, true, _)),
+            "control: P is accepted as the first block of a joining node"
+        );
+        let c = Block::deserialize_from_net(&c_bytes).expect("C decodes");
+        let result = AssertUnwindSafe(t.add_block(c)).catch_unwind().await;
+        assert!(
+            result.is_ok(),
+            "control: with a decodable rebroadcast payload in P, adding C does not panic"
+        );
+    }
+
+    // hostile: the same two blocks, the rebroadcast payload of P is 3 bytes that are no transaction
+    let mut t = TestManager::default();
+    let (p_bytes, c_bytes) = replay_peer_blocks_with_atr_payload(
+        attacker_public_key,
+        attacker_private_key,
+        vec![1, 2, 3],
+    );
+    let p = Block::deserialize_from_net(&p_bytes).expect("P decodes");
+    assert_eq!(p.transactions[0].data, vec![1, 2, 3]);
+    let result = t.add_block(p).await;
+    assert!(
+        matches!(result, AddBlockResult::BlockAddedSuccessfully(_, true, _)),
+        "P (with the 3-byte payload) is accepted as the first block of a joining node"
+    );
+    let c = Block::deserialize_from_net(&c_bytes).expect("C decodes");
+    let result = AssertUnwindSafe(t.add_block(c)).catch_unwind().await;
+    if !(result.is_ok()) { witness(format!("adding the peer's block 6 (a golden ticket on top of block 5) panicked the node: Block::find_winning_router decodes the 3-byte rebroadcast payload [1,2,3] of block 5 with Transaction::deserialize_from_net(..).expect(\"buffer to be valid\"); bytes chosen by a peer must be rejected with an error, never crash the decoder's caller")); }
 }
